@@ -68,6 +68,13 @@ static int run_case(int which) {
       if (a != 1 || b != 1) { std::fprintf(stderr, "case 8: head on the start executor: %zu (want 1), Then(e, g) on e: %zu (want 1)\n", a, b); return 1; }
       got = std::move(f).Get().Ok(); want = 2;
     } break;
+    case 9: {  // a never-started / cancelled Task runs no value callback, whatever its head is; a Result callback sees StopError
+      int value_calls = 0, saw_stop = 0;
+      { auto t = yaclib::MakeTask(1).ThenInline([&](int x) { ++value_calls; return x; }).ThenInline([&](yaclib::Result<int> r) { saw_stop += r.State() == yaclib::ResultState::Error; return 0; }); }
+      { auto t = yaclib::Schedule([] { return 1; }).ThenInline([&](int x) { ++value_calls; return x; }).ThenInline([&](yaclib::Result<int> r) { saw_stop += r.State() == yaclib::ResultState::Error; return 0; }); std::move(t).Cancel(); }
+      if (value_calls != 0 || saw_stop != 2) { std::fprintf(stderr, "case 9: abandoned tasks ran %d value callbacks (want 0), %d of 2 Result callbacks saw StopError\n", value_calls, saw_stop); return 1; }
+      got = want = 0;
+    } break;
     default: return 0;
   }
   std::fprintf(stderr, "case %d: got %d, want %d\n", which, got, want);
@@ -77,6 +84,6 @@ static int run_case(int which) {
 int main(int argc, char** argv) {
   if (argc > 1 && std::strcmp(argv[1], "all") != 0) return run_case(std::atoi(argv[1]));
   int bad = 0;
-  for (int i = 0; i <= 8; ++i) bad |= run_case(i);
+  for (int i = 0; i <= 9; ++i) bad |= run_case(i);
   return bad;
 }
